@@ -15,7 +15,10 @@ import (
 // C17: (a) the dagre bridge: escapeID (verif hook) and the JS reading of the template literal it is spliced
 // into (real goja) vs the Lean model; (b) every compilable generated diagram is laid out by dagre and ELK through
 // the real LayoutNested, exported and rendered: outcome + geometry for Spec.finiteGeometry.
-func main() { hl.Main("C17", run) }
+func main() {
+	lay.MaybeChild()
+	hl.Main("C17", run)
+}
 
 func cps(s string) []int {
 	out := []int{}
@@ -148,6 +151,9 @@ func run(c *hl.Ctx) error {
 		if rr == nil {
 			c.Count("budget:not-run")
 			continue
+		}
+		for _, ft := range lay.Features(rr) {
+			c.Count(rr.Engine + ":" + ft)
 		}
 		c.Emit(layCase(rr))
 		c.Count("lay:" + jobs[i].Tag + ":" + rr.Engine)
